@@ -618,7 +618,7 @@ theorem AnnInv.closed : Closed Wf AnnInv where
     h.of_same rfl rfl h.holds rfl rfl rfl rfl rfl (fun g hg hp => ⟨g, hg, rfl, hp⟩) (fun pc hpc => ⟨pc, hpc, rfl⟩)
   emitRead := fun _ _ _ _ h _ => h.ofEmit trivial
   emitIdle := fun _ _ _ _ h _ => h.ofEmit trivial
-  publish := fun _ _ now hw h => h.ofPublish now hw.getF_new
+  publish := fun _ _ now hw h _ => h.ofPublish now hw.getF_new
   fdtAdvance := fun _ _ now hw h _ hs => h.ofFdtAdvance now hw hs
   fileStart := fun _ _ _ _ tk _ hw h _ hfn => h.ofFileStart tk hw hfn
   pkt := fun _ _ _ _ now _ idx b e hw h hq _ hfq _ _ => h.ofPkt now idx b e hw hq hfq
@@ -656,7 +656,10 @@ theorem AnnInv.closedOps : ClosedOps Wf AnnInv where
       · exact h.ofEmit trivial
       · exact h.neutral (e := Ev.opTrigger t ts true) trivial rfl rfl rfl rfl rfl rfl rfl
           (mem_updF_published (fun f => ⟨rfl, rfl⟩)) (fun pc hpc => ⟨pc, hpc, rfl⟩)
-  emitPublish := fun _ _ _ _ h => h.ofEmit trivial
+  publishOp := fun s L now hw h =>
+    publishTry_elim (P := fun x => AnnInv x L) _ now
+      ((h.ofEmit (e := Ev.opPublish now) trivial).ofPublish now (Wf.emit (Ev.opPublish now) hw).getF_new)
+      (h.ofEmit trivial)
   complete := fun _ _ _ h =>
     h.of_same rfl rfl h.holds rfl rfl rfl rfl rfl (fun g hg hp => ⟨g, hg, rfl, hp⟩) (fun pc hpc => ⟨pc, hpc, rfl⟩)
 
